@@ -29,11 +29,18 @@ inductive Out where
   | err (e : FrameErr)
   deriving Repr, DecidableEq
 
-/-- constructor arguments / class attribute of `BitcoinFramer` -/
+/-- constructor arguments / class attribute of `BitcoinFramer`, and the one degree of freedom
+    the property text leaves to `_receive_header` -/
 structure Cfg where
   magic : Bytes
   maxPayload : Nat     -- `max_payload_size`
   maxBlock : Nat       -- `_max_block_size`
+  /-- which error a header that is wrong in BOTH ways (wrong magic *and* over-limit length)
+      raises: `false` = `BadMagicError` (magic tested first - the pinned code), `true` =
+      `OversizedPayloadError`.  The text fixes no order; the value is a *fact* read from the
+      behaviour of the real code on such a header (`Facts.C07.sizeFirst`), and every theorem is
+      proved for both values. -/
+  sizeFirst : Bool
 
 /-- header layout, `Struct('<4s12sI4s')` -/
 def magicW : Nat := 4
@@ -101,9 +108,12 @@ def hCmd (h : Bytes) : Bytes := (h.drop magicW).take cmdW
 def hLen (h : Bytes) : Nat := unle (((h.drop magicW).drop cmdW).take lenW)
 def hCk (h : Bytes) : Bytes := ((((h.drop magicW).drop cmdW).drop lenW)).take ckW
 
-/-- `_receive_header` on the 24 header bytes: magic test first, then strip, then size test -/
+/-- `_receive_header` on the 24 header bytes: magic test, strip, size test.  A header failing
+    both tests raises the error of the test that comes first (`cfg.sizeFirst`). -/
 def parseHeader (cfg : Cfg) (h : Bytes) : Except FrameErr (Bytes × Nat × Bytes) :=
-  if hMagic h != cfg.magic then .error .badMagic
+  if hMagic h != cfg.magic && oversized cfg (rstripNul (hCmd h)) (hLen h) then
+    .error (if cfg.sizeFirst then .oversized else .badMagic)
+  else if hMagic h != cfg.magic then .error .badMagic
   else if oversized cfg (rstripNul (hCmd h)) (hLen h) then .error .oversized
   else .ok (rstripNul (hCmd h), hLen h, hCk h)
 
@@ -278,15 +288,30 @@ structure Sess where
 
 def Sess.init : Sess := ⟨0, false, []⟩
 
-/-- the loop over the outcomes of `recv_message()`.  After an arm that spawned `close` the
-    transport delivers `connection_lost`, the framer is failed and the next `recv_message()`
-    raises `ConnectionLostError`, which ends the loop: nothing after it is looked at. -/
-def sessRun : List Out → Sess → Sess
-  | [], s => s
-  | .msg c p :: r, s => sessRun r { s with delivered := s.delivered ++ [(c, p)] }
-  | .err e :: r, s =>
+/-- the loop over the outcomes of `recv_message()`.
+
+    An arm that spawned `close` goes on with `await sleep(0.001)` and then **loops back to
+    `recv_message()`**: the loop only ends when the transport has delivered `connection_lost`
+    (the framer is failed and `recv_message()` raises `ConnectionLostError`).  Until then
+    everything that is already buffered is processed as usual - messages are handled, errors are
+    counted, `close` is spawned again.  `g` is the number of *further* magic/size errors the loop
+    gets to process before the loss arrives: each such arm costs 1 ms of the loop's time, so
+    `g = 0` is a transport that reports the loss at once (`call_soon`, what asyncio does when its
+    write buffer is empty), `g = ⌊delay / 1 ms⌋` one that reports it after `delay`, and any
+    `g ≥` the number of magic/size errors one that never does. -/
+def sessRunG : Nat → List Out → Sess → Sess
+  | _, [], s => s
+  | g, .msg c p :: r, s => sessRunG g r { s with delivered := s.delivered ++ [(c, p)] }
+  | g, .err e :: r, s =>
       let a := policy e
       let s' := { s with errors := s.errors + a.bump, closed := s.closed || a.close }
-      if a.close then s' else sessRun r s'
+      if a.close then
+        match g with
+        | 0 => s'
+        | g' + 1 => sessRunG g' r s'
+      else sessRunG g r s'
+
+/-- the loss is reported at once: nothing after the first magic/size error is looked at -/
+def sessRun (outs : List Out) (s : Sess) : Sess := sessRunG 0 outs s
 
 end Aiorpcx.C07
